@@ -11,7 +11,8 @@
 From Coq Require Import List NArith Arith Bool.
 From SNT Require Import Base.Outcome Automata.DfaData Automata.DfaDataProofs
   Automata.Tokenizer Automata.TokenizerRun Automata.TokenizerMunch Automata.TokenizerTheorems
-  Gen.ProdDFA Decoder.Payload Decoder.Events Decoder.EventsProofs Decoder.EventsTheorems.
+  Gen.ProdDFA Decoder.Payload Decoder.Events Decoder.EventsProofs Decoder.EventsTheorems
+  Decoder.PollLoop Automata.ProdNfaData Automata.ProdCheck Automata.ProdCheckProofs Automata.ProdInstances Automata.ProdLanguage Gen.ProdNFA.
 Import ListNotations.
 
 Section Generic.
@@ -168,6 +169,71 @@ Section Prod.
   Qed.
 End Prod.
 
+(* ------------------------------------------------------------------------- *)
+(* Leftmost-longest with respect to the LANGUAGES of the production patterns.
+
+   Gen/ProdNFA.v is the NFA the crate builds from the registered matchers right before `compile()`
+   (NFA::choice of the tagged patterns); C15_production_event / _command prove that the dumped DFA
+   is its subset construction.  Composed with C03_munch / C03_longest / C03_raw_span /
+   C03_accepted_span: for every byte stream and every partition into reads the events are a
+   tokenisation `LMunch` in which every token is characterised ON THE NFA (ProdLanguage.LangTok):
+     - if the NFA accepts the token's bytes: no longer prefix of the remaining stream is accepted by
+       the NFA, and the token is what decode_item makes of a state whose tag list is exactly the set
+       of tags of the NFA states reached by those bytes (the code uses the first of that list, in the
+       order of its BTreeSet<MatcherTag>: literal items, then matchers by index);
+     - otherwise no prefix of the remaining stream is accepted by the NFA and the token is raw: the
+       longest prefix on which the NFA is still live (or one byte when no pattern starts with it);
+     - what stays pending at the end is live on the NFA in all its prefixes. *)
+Section ProdLang.
+  Variable Item : Type.
+  Variable decode_item : N -> list N -> option Item.
+
+  Lemma event_terminal_ok : terminal_ok (DfaData.compile event_data) = true.
+  Proof. vm_compute. reflexivity. Qed.
+  Lemma command_terminal_ok : terminal_ok (DfaData.compile command_data) = true.
+  Proof. vm_compute. reflexivity. Qed.
+
+  Theorem C03_prod_language_event : forall (chunks : list (list N)) (fuel : nat),
+    ProdCheckProofs.bytes (concat chunks) ->
+    (length (concat chunks) + 3 <= fuel)%nat ->
+    exists ts s',
+      feed N Item (d_start event_dfa) (d_delta event_dfa) (d_accepting event_dfa) (d_terminal event_dfa)
+           decode_item fuel (init (d_start event_dfa)) chunks = Ok (ts, s') /\
+      LMunch event_nfa_data event_data decode_item (concat chunks) ts (sbuf s').
+  Proof.
+    intros chunks fuel Hb Hf. rewrite event_dfa_eq.
+    set (D := DfaData.compile event_data).
+    destruct (feed_munch N Item (d_start D) (d_delta D) (d_accepting D) (d_terminal D) decode_item chunks fuel Hf)
+      as (s' & HF & Hp & _).
+    exists (fst (munch N Item (d_start D) (d_delta D) (d_accepting D) (d_terminal D) decode_item (concat chunks))), s'.
+    split; [exact HF|]. rewrite Hp.
+    apply (Munch_language event_nfa_data event_data event_subset_construction event_terminal_ok decode_item _ _ _ Hb).
+    apply munch_Munch.
+  Qed.
+
+  Theorem C03_prod_language_command : forall (chunks : list (list N)) (fuel : nat),
+    ProdCheckProofs.bytes (concat chunks) ->
+    (length (concat chunks) + 3 <= fuel)%nat ->
+    exists ts s',
+      feed N Item (d_start command_dfa) (d_delta command_dfa) (d_accepting command_dfa) (d_terminal command_dfa)
+           decode_item fuel (init (d_start command_dfa)) chunks = Ok (ts, s') /\
+      LMunch command_nfa_data command_data decode_item (concat chunks) ts (sbuf s').
+  Proof.
+    intros chunks fuel Hb Hf. rewrite command_dfa_eq.
+    set (D := DfaData.compile command_data).
+    destruct (feed_munch N Item (d_start D) (d_delta D) (d_accepting D) (d_terminal D) decode_item chunks fuel Hf)
+      as (s' & HF & Hp & _).
+    exists (fst (munch N Item (d_start D) (d_delta D) (d_accepting D) (d_terminal D) decode_item (concat chunks))), s'.
+    split; [exact HF|]. rewrite Hp.
+    apply (Munch_language command_nfa_data command_data command_subset_construction command_terminal_ok decode_item _ _ _ Hb).
+    apply munch_Munch.
+  Qed.
+End ProdLang.
+
+(* non-vacuity: the hypothesis holds of real streams, e.g. the crate's test_reschedule input *)
+Example C03_prod_language_nonvacuous : ProdCheckProofs.bytes [27; 79; 84]%N.
+Proof. intros c [<-|[<-|[<-|[]]]]; reflexivity. Qed.
+
 (* the public wrappers: TTYEventDecoder / TTYCommandDecoder = the tokeniser plus the Raw wrapper
    (an EMPTY reject would make `decode` return None and end the caller's loop early; raw spans are
    never empty, so the wrapper is transparent) with the trait's default decode_into: for any
@@ -183,6 +249,36 @@ Proof.
               (item_of (payload_at ids tb) d) chunks fuel H) as (s' & A & _).
   exists s'. exact A.
 Qed.
+
+(* the read loop of UnixTerminal::poll (src/unix.rs; model Decoder/PollLoop.v): one tty read per
+   chunk, `decode` until None, every event through the image handler.  As long as the handler does
+   not fail on the events of the stream, what reaches the event queue over ANY sequence of reads is
+   the delivery, in order, of the leftmost-longest tokens of the whole stream: nothing is lost,
+   duplicated or reordered by the read boundaries. *)
+Theorem C03_poll_loop : forall (d : dfa) (ids : list N) (tb : dtabs)
+    (pre : tok pitem -> list (tok pitem)) (handle : tok pitem -> option bool)
+    (chunks : list (list N)) (fuel : nat),
+  (length (concat chunks) + 3 <= fuel)%nat ->
+  forall evs,
+    deliver_all pre handle (fst (t_munch d (payload_at ids tb) (concat chunks))) = Some evs ->
+    exists s', poll_feed d (payload_at ids tb) pre handle fuel (t_init d) chunks [] = Ok (s', evs).
+Proof.
+  intros d ids tb pre handle chunks fuel Hf evs He.
+  destruct (C03_public_wrappers d ids tb chunks fuel Hf) as (s' & HF).
+  exists s'. exact (poll_feed_spec d (payload_at ids tb) pre handle fuel chunks _ [] _ _ HF evs He).
+Qed.
+
+(* the limit of that guarantee: `handle(..)?` — the first event on which the handler returns an error
+   ends poll with that error, and the events the decoder would still produce from the rest of the read
+   buffer are not delivered (the bytes were taken from the tty and live only in poll's stack buffer).
+   The handlers of the crate write to the in-memory write queue only and do not fail. *)
+Theorem C03_poll_loop_handler_error : forall (d : dfa) (ids : list N) (tb : dtabs)
+    (pre : tok pitem -> list (tok pitem)) (handle : tok pitem -> option bool)
+    fuel s buf queue ts s' rest,
+  tty_decode_into d (payload_at ids tb) fuel s buf = Ok (ts, s', rest) ->
+  deliver_all pre handle ts = None ->
+  poll_read d (payload_at ids tb) pre handle fuel s buf queue = Err site_handler.
+Proof. intros d ids tb pre handle. exact (poll_read_handler_error d (payload_at ids tb) pre handle). Qed.
 
 (* ------------------------------------------------------------------------- *)
 Check C03_chunking : forall Q Item q0 delta accepting terminal decode_item
